@@ -824,3 +824,206 @@ class SenderScenario(Scenario):
 
     def all_sent(self, enc, K):
         return [enc.at_end(K, f"sender{k}") for k in range(self.nsenders)] + [enc.var(K, f"G.sent{k}") == INT0 + 1 for k in range(self.nsenders)]
+
+
+# ----------------------------------------------------------------------------- channel layer under schedules (C10 / C02 / C03 schedule parts)
+
+class ChannelScenario(Scenario):
+    """One real channel of one real gateway: the receiver thread's message handlers (called under gateway._receivelock,
+    as BaseGateway._thread_receiver does) race user threads calling setcallback / receive / close.
+    queue.Queue, the weak channel table and the callback table are environment models; the callback records what it sees."""
+
+    ITEMS = ("I0", "I1", "I2")
+
+    def __init__(self, name, prequeued=0, nevents=2, nqueues=1):
+        self.model = py2ts.Model()
+        ns = dict(vars(gb))
+        classes = {"BaseGateway": gb.BaseGateway, "ChannelFactory": gb.ChannelFactory, "Channel": gb.Channel}
+        counts = {"BaseGateway": 1, "ChannelFactory": 1, "Channel": 1, "Event": nevents, "Lock": 2, "Set": 0, "List": 2, "Queue": nqueues, "Map": 2, "ExecModel": 1}
+        sc = self
+
+        def s_call_value(comp, ctx, fval, node, cur):
+            fn = node.func
+            if isinstance(fn, ast.Name) and fn.id == "put":
+                # Channel.close: put = self.gateway._send; put(CHANNEL_CLOSE, id) - the frame leaves (recorded as a ghost count)
+                for a in node.args:
+                    cur, _ = comp.ev(ctx, a, cur)
+                n = comp.m.new_node()
+                g = comp.m.var("G.frames_sent", INT0)
+                comp.emit(ctx, cur, n, updates=[(V(g), ("padd", V(g), C(pyint(1))))], visible=True, info="gateway._send (stub: frame leaves)", node=node, sync="task")
+                return n, C(NONE)
+            # a user callback: records its argument
+            cur, x = comp.ev(ctx, node.args[0], cur)
+            n = comp.m.new_node()
+            seen = C(comp.U.classes["List"][1])
+            comp.emit(ctx, cur, n, updates=[(("lst.push", seen), comp.scalar(x))], visible=True, info="callback(item) (stub: records the item)", node=node, sync="task")
+            return n, C(NONE)
+
+        def s_first_arg(comp, ctx, node, cur):
+            cur, v = comp.ev(ctx, node.args[0], cur)
+            for a in node.args[1:]:
+                cur, _ = comp.ev(ctx, a, cur)
+            return cur, v
+
+        def s_send(comp, ctx, node, cur):
+            for a in node.args:
+                cur, _ = comp.ev(ctx, a, cur)
+            n = comp.m.new_node()
+            g = comp.m.var("G.frames_sent", INT0)
+            comp.emit(ctx, cur, n, updates=[(V(g), ("padd", V(g), C(pyint(1))))], visible=True, info="gateway._send (stub: frame leaves)", node=node, sync="task")
+            return n, C(NONE)
+
+        noop = lambda comp, ctx, node, cur: (cur, C(NONE))
+
+        def s_from_io(comp, ctx, node, cur):
+            # the connection is gone: Message.from_io raises EOFError (all frames of the scenario were handled before)
+            comp.raise_to(ctx, cur, C(comp.U.exc("EOFError")), node)
+            return comp.m.new_node(), C(NONE)
+
+        stubs = {"from_io": s_from_io, "received": noop, "close_read": noop, "close_write": noop, "trigger_shutdown": noop,
+                 "call_value": s_call_value, "loads_internal": s_first_arg, "dumps_internal": s_first_arg, "_send": s_send, "warn": noop,
+                 "_geterrortext": lambda comp, ctx, node, cur: (cur, C(comp.U.const("<errortext>"))),
+                 "isinstance": lambda comp, ctx, node, cur: (cur, C(FALSE))}
+        self.comp = py2ts.Compiler(self.model, ns, classes, counts, task_specs={}, extra_stubs=stubs, list_cap=5)
+        self.U = self.model.U
+        U = self.U
+        self.gw, self.factory, self.ch = self.obj("BaseGateway"), self.obj("ChannelFactory"), self.obj("Channel")
+        self.em = U.classes["ExecModel"][0]
+        self.model.var("F.ExecModel.backend[0]", U.const("thread"))
+        init = {
+            "F.BaseGateway.execmodel[0]": self.em, "F.BaseGateway._channelfactory[0]": self.factory, "F.BaseGateway._receivelock[0]": U.classes["Lock"][0],
+            "F.BaseGateway._io[0]": U.const("<io>"), "F.BaseGateway._receivepool[0]": U.const("<receivepool>"),
+            "F.ChannelFactory._channels[0]": U.classes["Map"][0], "F.ChannelFactory._callbacks[0]": U.classes["Map"][1], "F.ChannelFactory.gateway[0]": self.gw,
+            "F.ChannelFactory._writelock[0]": U.classes["Lock"][1], "F.ChannelFactory.finished[0]": FALSE,
+            "F.Channel.gateway[0]": self.gw, "F.Channel.id[0]": INT0 + 1, "F.Channel._items[0]": U.classes["Queue"][0], "F.Channel._closed[0]": FALSE,
+            "F.Channel._receiveclosed[0]": U.classes["Event"][0], "F.Channel._remoteerrors[0]": U.classes["List"][0], "F.Channel._strconfig[0]": U.const("<strconfig>"),
+            "map.val[0][1]#0": self.ch,     # the channel is registered under id 1
+            "alloc.Event": 1, "alloc.List": 2, "alloc.Queue": 1, "alloc.Lock": 2, "alloc.Map": 2,
+        }
+        for k, v in init.items():
+            self.model.vars[k] = v
+        self.items = {n: U.const(("item", n)) for n in self.ITEMS}
+        self.CB, self.END = U.const(("callback", "CB")), U.const(("endmarker", "END"))
+        for i in range(prequeued):
+            self.model.vars[f"q.item[0][{i}]"] = self.items[self.ITEMS[i]]
+        self.model.vars["q.len[0]"] = prequeued
+        self.prequeued = prequeued
+        self.programs, self.static = {}, {}
+        self.bad, self.observed, self.good_flags = [], [], []
+        self.name = name
+
+    def consts(self):
+        d = {"gw": self.gw, "f": self.factory, "ch": self.ch, "CB": self.CB, "END": self.END}
+        d.update(self.items)
+        return d
+
+    def add(self, name, src, argnames):
+        c = self.consts()
+        args = {a: c[a] for a in argnames}
+        self.thread(name, src, args=args)
+        self.static[name] = (src, args, False)
+        self.bad += [("uncaught", name, [])]
+
+    def finish(self):
+        self.build()
+        return self
+
+    def seen(self, enc, K):
+        n = enc.var(K, "lst.len[1]")
+        return n, [enc.var(K, f"lst.item[1][{i}]") for i in range(5)]
+
+    def seen_is(self, enc, K, names):
+        n, items = self.seen(enc, K)
+        codes = [self.END if x == "END" else self.items[x] for x in names]
+        return z3.And(n == len(codes), *[items[i] == c for i, c in enumerate(codes)])
+
+    def witness(self, enc, K):
+        return [enc.at_end(K, t) for t in self.static] + [enc.var(K, f"G.{g}") == INT0 + 1 for g in self.good_flags]
+
+    def observe_model(self, st):
+        n = st["lst.len[1]"]
+        rev = {v: k for k, v in self.items.items()}
+        rev[self.END] = "END"
+        d = {"seen": [rev.get(st[f"lst.item[1][{i}]"], "?") for i in range(n)]}
+        d.update({g: st.get(f"G.{g}", INT0) - INT0 for g in self.observed})
+        d["finished"] = sorted(t for t in self.static if st[f"pc.{t}"] == self.ts.end[t])
+        return d
+
+    def observe_real(self, ghost, done, blocked):
+        d = {"seen": list(ghost.get("seen", []))}
+        d.update({g: int(ghost.get(g, 0)) for g in self.observed})
+        d["finished"] = sorted(done)
+        return d
+
+    def replay(self, order, mode="sync"):
+        prequeued = self.prequeued
+        seen = []
+
+        def env(sched, G):
+            em = _replay.ReplayExecModel(sched, "thread", {})
+
+            class IO:
+                execmodel = em
+
+                def read(self, n):
+                    return b""          # the connection is gone
+
+                def close_read(self):
+                    pass
+
+                def close_write(self):
+                    pass
+
+            class _NoPool:
+                def trigger_shutdown(self):
+                    pass
+
+            class GW(gb.BaseGateway):
+                def _send(self, *a, **k):
+                    G.frames_sent = G.frames_sent + 1
+                    sched.sync("task")
+
+            gw = GW(IO(), "replay", _startcount=1)
+            gw._receivepool = _NoPool()
+            ch = gw.newchannel()
+            ch._items = _replay.QueueR(sched)
+            for i in range(prequeued):
+                ch._items.q.append(self.ITEMS[i])
+
+            def cb(x):
+                seen.append("END" if x is END else x)
+                sched.sync("task")
+
+            END = object()
+            state = {"loads": gb.loads_internal}
+            gb.loads_internal = lambda data, *a, **k: data
+            self._restore = lambda: setattr(gb, "loads_internal", state["loads"])
+            d = {"GWOBJ": gw, "FOBJ": gw._channelfactory, "CHOBJ": ch, "CBOBJ": cb, "ENDOBJ": END, "EOFError": EOFError, "OSError": OSError, "RemoteError": gb.RemoteError}
+            for n in self.ITEMS:
+                d[f"ITEM_{n}"] = n
+
+            def await_(fn):
+                import time as _t
+
+                t0 = _t.time()
+                while not fn() and _t.time() - t0 < 20:
+                    _t.sleep(0.005)
+                sched.sync("await")
+
+            d["await_"] = await_
+            return d
+
+        programs = {}
+        rev = {self.gw: "GWOBJ", self.factory: "FOBJ", self.ch: "CHOBJ", self.CB: "CBOBJ", self.END: "ENDOBJ"}
+        for n, code in self.items.items():
+            rev[code] = f"ITEM_{n}"
+        for name, (src, args, _) in self.static.items():
+            src2 = _re.sub(r"await_\((.*)\)\n", r"await_(lambda: \1)\n", src)
+            programs[name] = (src2, {k: rev.get(v, v) for k, v in args.items()}, False)
+        try:
+            ghost, done, blocked, sched = _replay.run_schedule(programs, order, env, mode=mode, gates=self.line_gates() if mode == "line" else None)
+        finally:
+            if getattr(self, "_restore", None):
+                self._restore()
+        ghost["seen"] = list(seen)
+        return ghost, done, blocked, sched
